@@ -124,29 +124,35 @@ impl CurveHandshake {
       return Err(ZmqError::InvalidState("Handshake not complete"));
     }
 
+    // The data-phase keys come from the *ephemeral* key pairs exchanged in this handshake
+    // (the static keys only authenticate it): every session gets fresh keys, so restarting
+    // the nonce counters at 1 never reuses a (key, nonce) pair across sessions.
+    if self.remote_static_public_key.is_none() {
+      return Err(ZmqError::InvalidState("Handshake complete but remote PK missing"));
+    }
     let remote_pk = self
-      .remote_static_public_key
+      .remote_ephemeral_public_key
       .as_ref()
-      .ok_or_else(|| ZmqError::InvalidState("Handshake complete but remote PK missing"))?
+      .ok_or_else(|| ZmqError::InvalidState("Handshake complete but remote ephemeral PK missing"))?
       .as_array();
-    let local_pk = self.local_static_keypair.public_key.as_array();
-    let local_sk = self.local_static_keypair.secret_key.as_array();
+    let local_pk = self.local_ephemeral_keypair.public_key.as_array();
+    let local_sk = self.local_ephemeral_keypair.secret_key.as_array();
 
     let (mut rx, mut tx) = ([0u8; 32], [0u8; 32]);
 
     if self.is_server {
       // We are Server. Local is Server, Remote is Client.
       dryoc::classic::crypto_kx::crypto_kx_server_session_keys(
-        &mut rx, &mut tx, local_pk,  // Server PK (Primary)
-        local_sk,  // Server SK
-        remote_pk, // Client PK (Peer)
+        &mut rx, &mut tx, local_pk,  // Server ephemeral PK (Primary)
+        local_sk,  // Server ephemeral SK
+        remote_pk, // Client ephemeral PK (Peer)
       )?;
     } else {
       // We are Client. Local is Client, Remote is Server.
       dryoc::classic::crypto_kx::crypto_kx_client_session_keys(
-        &mut rx, &mut tx, local_pk,  // Client PK (Primary)
-        local_sk,  // Client SK
-        remote_pk, // Server PK (Peer)
+        &mut rx, &mut tx, local_pk,  // Client ephemeral PK (Primary)
+        local_sk,  // Client ephemeral SK
+        remote_pk, // Server ephemeral PK (Peer)
       )?;
     }
 
